@@ -70,6 +70,7 @@ type GuardEngine struct {
 	rootDepth int
 	factDepth int
 	nonNilCtor map[*ssa.Function]bool
+	globalFuncs map[*ssa.Global][]*ssa.Function
 }
 
 func NewGuardEngine(p *Program, depth int) *GuardEngine {
@@ -421,6 +422,109 @@ func splitCmpCall(l string) (string, string, bool) {
 
 // calleeOf resolves the function called by a call instruction (static callee or a closure stored
 // once in a local).
+// calleesOf is calleeOf extended to calls through an element of a package-level slice of functions
+// (for _, f := range validators { if err := f(x); err != nil { return err } }): every listed function is a callee.
+func (ge *GuardEngine) calleesOf(c *ssa.CallCommon) []*ssa.Function {
+	if f := ge.calleeOf(c); f != nil {
+		return []*ssa.Function{f}
+	}
+	if c.IsInvoke() {
+		return nil
+	}
+	ld, ok := c.Value.(*ssa.UnOp)
+	if !ok || ld.Op != token.MUL {
+		return nil
+	}
+	ia, ok := ld.X.(*ssa.IndexAddr)
+	if !ok {
+		return nil
+	}
+	gl, ok := ia.X.(*ssa.UnOp)
+	if !ok || gl.Op != token.MUL {
+		return nil
+	}
+	g, ok := gl.X.(*ssa.Global)
+	if !ok || g.Pkg == nil {
+		return nil
+	}
+	if ge.globalFuncs == nil {
+		ge.globalFuncs = map[*ssa.Global][]*ssa.Function{}
+	}
+	if fs, ok := ge.globalFuncs[g]; ok {
+		return fs
+	}
+	var fs []*ssa.Function
+	if init := g.Pkg.Func("init"); init != nil {
+		for _, b := range init.Blocks {
+			for _, in := range b.Instrs {
+				st, ok := in.(*ssa.Store)
+				if !ok || st.Addr != ssa.Value(g) {
+					continue
+				}
+				sl, ok := st.Val.(*ssa.Slice)
+				if !ok {
+					continue
+				}
+				al, ok := sl.X.(*ssa.Alloc)
+				if !ok {
+					continue
+				}
+				byIdx := map[int64]*ssa.Function{}
+				complete := true
+				for _, ref := range *al.Referrers() {
+					ea, ok := ref.(*ssa.IndexAddr)
+					if !ok {
+						continue
+					}
+					k, isK := ea.Index.(*ssa.Const)
+					for _, r2 := range *ea.Referrers() {
+						es, ok := r2.(*ssa.Store)
+						if !ok || es.Addr != ssa.Value(ea) {
+							continue
+						}
+						var f *ssa.Function
+						switch v := es.Val.(type) {
+						case *ssa.Function:
+							f = v
+						case *ssa.MakeClosure:
+							f, _ = v.Fn.(*ssa.Function)
+						case *ssa.ChangeType:
+							f, _ = v.X.(*ssa.Function)
+						}
+						if f == nil || !isK {
+							complete = false
+							continue
+						}
+						byIdx[k.Int64()] = f
+					}
+				}
+				if complete {
+					for i := int64(0); i < int64(len(byIdx)); i++ {
+						if byIdx[i] != nil {
+							fs = append(fs, byIdx[i])
+						}
+					}
+				}
+			}
+		}
+	}
+	// the list is only trusted if nothing else ever stores to the global
+	for _, fn := range SortedFuncs(ge.p.AllFuncs()) {
+		if fn.Pkg != g.Pkg || fn.Name() == "init" {
+			continue
+		}
+		for _, b := range fn.Blocks {
+			for _, in := range b.Instrs {
+				if st, ok := in.(*ssa.Store); ok && st.Addr == ssa.Value(g) {
+					fs = nil
+				}
+			}
+		}
+	}
+	ge.globalFuncs[g] = fs
+	return fs
+}
+
 func (ge *GuardEngine) calleeOf(c *ssa.CallCommon) *ssa.Function {
 	if f := c.StaticCallee(); f != nil {
 		return f
@@ -587,14 +691,15 @@ func (ge *GuardEngine) guardsRec(fn *ssa.Function, env *Env, chain []string, ctx
 	chain = append(append([]string{}, chain...), FuncName(fn))
 	var out []Guard
 	expand := func(call *ssa.Call, at *ssa.BasicBlock, extraCtx []string) {
-		callee := ge.calleeOf(&call.Call)
-		if callee == nil || !ge.p.InModule(callee) {
-			return
+		for _, callee := range ge.calleesOf(&call.Call) {
+			if callee == nil || !ge.p.InModule(callee) {
+				continue
+			}
+			cctx := append(append([]string{}, ctx...), ge.condCtx(fi, at, env)...)
+			cctx = append(cctx, extraCtx...)
+			csites := append(append([]Site{}, sites...), Site{fn, at, env})
+			out = append(out, ge.guardsRec(callee, ge.calleeEnv(callee, &call.Call, env), chain, cctx, csites, depth+1, seen)...)
 		}
-		cctx := append(append([]string{}, ctx...), ge.condCtx(fi, at, env)...)
-		cctx = append(cctx, extraCtx...)
-		csites := append(append([]Site{}, sites...), Site{fn, at, env})
-		out = append(out, ge.guardsRec(callee, ge.calleeEnv(callee, &call.Call, env), chain, cctx, csites, depth+1, seen)...)
 	}
 	for _, b := range fn.Blocks {
 		if len(b.Instrs) == 0 {
